@@ -48,7 +48,7 @@ OpSpace ==
     \cup {[op |-> "renameat", dir |-> p[1], name |-> p[2], dir2 |-> p[3], name2 |-> p[4], rf |-> p[5]] : p \in RenameArgs}
     \cup [op : {"socket"}, kind : 0..1, proto : {0}, h : {2}]
     \cup {[op |-> "socket", kind |-> 1, proto |-> 17, h |-> 2], [op |-> "socket", kind |-> 1, proto |-> 6, h |-> 2]}  \* udp ok, tcp on a datagram socket refused
-    \cup [op : {"timeout"}, abs : 0..1]            \* relative 1 ms / absolute, long past
+    \cup [op : {"timeout"}, abs : 0..3]            \* relative 1 ms / absolute long past / absolute 40 ms ahead / relative 40 ms
     \cup [op : {"poll"}, h : 0..1, ev : 0..1]            \* always ready (or EBADF): a poll that never fires never completes
     \cup [op : {"poll"}, h : {2}, ev : {1}]
 
